@@ -178,13 +178,15 @@ def declared_op(raw: dict, path: str, desc: dict) -> dict:
         if p["in"] == "formData":
             form.append(p)
             continue
+        is_json = False
         if d == "2.0":
             sch = {k: v for k, v in p.items() if k not in _PARAM_META}
         elif "schema" in p:
             sch = p["schema"]
-        else:
-            sch = next(iter(p["content"].values())).get("schema", {})
-        params.append({"loc": p["in"], "name": cps(p["name"]), "required": bool(p.get("required", False)), "schema": sch})
+        else:       # described by `content`: the value travels as text of that media type
+            media, mt = next(iter(p["content"].items()))
+            sch, is_json = mt.get("schema", {}), media == "application/json"
+        params.append({"loc": p["in"], "name": cps(p["name"]), "required": bool(p.get("required", False)), "schema": sch, "json": is_json})
     if form:
         sch = {"type": "object", "properties": {p["name"]: {k: v for k, v in p.items() if k not in _PARAM_META} for p in form}}
         if any(p.get("required") for p in form):
@@ -233,12 +235,19 @@ def project_case(case: Any, op: dict, method: str, exempt: bool = False) -> dict
         labels[part] = info.mode.value if info is not None else "none"
     parts, alt = {}, {}
     mults = op.get("mults", ())
+    json_params = {(p["loc"], uncps(p["name"])) for p in op["params"] if p.get("json")}
     for loc, attr in CONTAINER.items():
         v = getattr(case, attr)
         if v is None or isinstance(v, NotSet):
             parts[loc] = alt[loc] = {"t": "absent"}
         else:
             v = dict(v) if not isinstance(v, dict) else v
+            for name in [n for n in v if (loc, n) in json_params and isinstance(v[n], str)]:
+                v = dict(v)
+                try:        # JSON text of a `content: application/json` parameter -> the JSON value it denotes
+                    v[name] = json.loads(urllib.parse.unquote(v[name]) if loc == "path" else v[name])
+                except ValueError:
+                    v[name] = _NotJson()
             parts[loc] = encode_value(v, mults)
             alt[loc] = encode_value(_unquote(v), mults) if loc == "path" else parts[loc]
     has_body = not isinstance(case.body, NotSet)
@@ -250,6 +259,10 @@ def project_case(case: Any, op: dict, method: str, exempt: bool = False) -> dict
     return {"labels": labels, "parts": parts, "alt": alt, "hasBody": has_body,
             "body": encode_value(case.body, mults) if has_body else {"t": "absent"},
             "media": case.media_type or "", "dup": dup, "method": str(case.method).upper(), "exempt": exempt}
+
+
+class _NotJson:
+    """Text of a JSON-typed parameter that is not JSON (projected as opaque => undecided)."""
 
 
 _STEP_PATTERNS = [
@@ -502,6 +515,9 @@ def case_signature(rule: str, description: str, detail: Any, desc: dict) -> str:
         return "C03:case:case-label-lags-part-label:" + cls(t[0] for t in parts if t[1] == "F" and t[2] == "negative")
     if any(t[1] == "F" and t[2] == "none" for t in parts) and rule in ("case-positive-something-invalid", "part-positive-invalid"):
         return "C03:case:required-part-absent:" + cls(t[0] for t in parts if t[1] == "F" and t[2] == "none")
+    if (desc.get("spell") or {}).get("schemaIn") == "content" and rule in ("case-positive-something-invalid", "part-positive-invalid") and \
+            {t[0] for t in parts if t[1] == "F" and t[2] == "positive"} <= {"header", "cookie"}:
+        return "C03:case:json-content-parameter-misencoded"
     if kind == "method" and rule == "case-negative-nothing-invalid":
         return "C03:case:documented-method-presented-as-unspecified"
     if rule == "part-negative-valid" and case_label == "positive":      # the case is presented as valid, one of its valid parts as invalid
